@@ -1,0 +1,7 @@
+//go:build !verif
+
+package mcp
+
+// verifEvent is a no-op unless the module is built with the "verif" tag
+// (verification hooks for the external model-based checks).
+func verifEvent(point string, kv ...interface{}) {}
